@@ -119,6 +119,81 @@ def analyse(b):
     return tok, len(changing), len(uses), viol
 
 
+def scan_counters(b, tok):
+    """[(loop header, blocks, counter local, next block)] : loops over tokens.iter() that keep a hand-written
+    position counter (usize local incremented by a constant 1 inside the loop)"""
+    out = []
+    for h, blocks in sorted(b.loops().items()):
+        nb = None
+        for bb in blocks:
+            t = b.term(bb)
+            if t["k"] == "call" and last_seg(b.callee(t)) == "next" and b.call_args(bb):
+                it = b.call_args(bb)[0]
+                src = flow.backward(b, it, lambda z: z[0] == "call" and last_seg(z[1]) in ("iter", "iter_mut", "into_iter")
+                                    and z[2] and mir.root_local_expr(b.expand_vars(strip_sites(z[2][0]))) == tok,
+                                    through_containers=False)
+                if src is not None and not any(sub[0] == "call" and last_seg(sub[1]) == "enumerate"
+                                               for sub in mir.subexprs(b.expand_vars(strip_sites(it)))):
+                    # outermost such loop only (the one whose header region holds this next())
+                    if nb is None:
+                        nb = bb
+        if nb is None:
+            continue
+        # is this the innermost loop containing nb?  (skip outer loops that merely contain an inner scan)
+        inner = [h2 for h2, bl2 in b.loops().items() if nb in bl2 and len(bl2) < len(blocks)]
+        if inner:
+            continue
+        for l, loc in enumerate(b.locals):
+            if loc["ty"] != "usize" or l not in b.names:
+                continue
+            incs = []
+            for bi, si in b.defs.get(l, []):
+                if bi in blocks:
+                    e = strip_sites(b.def_expr(bi, si))
+                    e = mir.peel(e)
+                    ok = e[0] == "bin" and e[1] == "Add" and e[2] == ("var", l, b.names.get(l)) and mir.const_int(e[3]) == 1
+                    if not ok and e[0] == "field":      # checked add: (idx + 1).0
+                        inner_e = mir.peel(e[2])
+                        ok = inner_e[0] == "bin" and inner_e[1] in ("Add", "AddWithOverflow") and mir.const_int(inner_e[3]) == 1 \
+                            and mir.root_local_expr(inner_e[2]) == l
+                    if ok:
+                        incs.append(bi)
+                    else:
+                        incs = None
+                        break
+            if incs:
+                out.append((h, blocks, l, nb, set(incs)))
+    return out
+
+
+def counter_paths(b, h, blocks, nb, incs):
+    """number of increments on the paths of one iteration: returns the set of counts seen at the back edge
+    (2 stands for two or more)"""
+    some_t = [tgt for tgt, atom, val in b.switch_edges(b.succs[nb][0]) if val == "Some"] if b.succs[nb] else []
+    if not some_t:
+        return None
+    back = {(x, y) for x, y in b.back_edges() if y == h}
+    inner_back = {(x, y) for x, y in b.back_edges() if y != h}
+    counts = set()
+    seen = set()
+    todo = [(some_t[0], 0)]
+    while todo:
+        bb, k = todo.pop()
+        if (bb, k) in seen:
+            continue
+        seen.add((bb, k))
+        if bb in incs:
+            k = min(2, k + 1)
+        for y in b.succs[bb]:
+            if y not in blocks:
+                continue
+            if (bb, y) in back:
+                counts.add(k)
+                continue
+            todo.append((y, k))
+    return counts
+
+
 def rule(ctx, crate, rule_id, paths):
     n = 0
     for p in paths:
@@ -141,6 +216,14 @@ def rule(ctx, crate, rule_id, paths):
                    detail="positions recorded during the scan no longer denote the same tokens once %s at %s has run: "
                           "the text is written into a neighbouring word (and inherits its quote tag), or past the end" %
                           (opA, b.loc(bbA)))
+        for h, blocks, l, nb, incs in scan_counters(b, tok):
+            counts = counter_paths(b, h, blocks, nb, incs)
+            ok = counts == {1}
+            ctx.ob(rule_id, p, "the position counter `%s` advances exactly once for every token scanned" % b.names.get(l), ok,
+                   key="%s|%s|scan-counter|%s" % (rule_id, p, b.names.get(l)), where=b.loc(h), crate=crate.kind,
+                   detail=None if ok else "an iteration can reach the next token with the counter advanced %s times: every "
+                   "position recorded afterwards denotes a neighbouring token" %
+                   ("/".join(str(c) if c < 2 else "2+" for c in sorted(counts)) if counts else "?"))
         if not viol:
             ctx.ob(rule_id, p, "recorded positions are used on the vector as scanned (%d length-changing op(s), %d indexed "
                                "use(s))" % (nc, nu), True, crate=crate.kind, nontrivial=bool(nc or nu))
